@@ -52,8 +52,13 @@ def check_seq(ck, svc, cfg, steps, oks, events, note=None):
                 kind = "accepted-but-not-configured" if ok else "rejected-although-configured"
                 ck.disagree("%s/login/%s" % (svc, kind), "%s: attempt %r/%r after %s: spec %s, real %s" % (
                     desc, s["user"], s["password"], [(x["a"], x["user"], x["password"]) for x in steps[:k]], s["ok"], ok), rp)
+            elif not ok:
+                # the property only demands refusal BEFORE a login; being refused later is not against it
+                ck.notes.append("MODEL-DRIFT %s: gated operation refused although the specification has the connection logged in: %s"
+                                % (desc, [(x["a"], x["user"], x["password"]) for x in steps[:k]]))
+                continue
             else:
-                kind = "allowed-before-login" if ok else "refused-after-login"
+                kind = "allowed-before-login"
                 ck.disagree("%s/gate/%s" % (svc, kind), "%s: gated operation after %s: spec %s, real %s" % (
                     desc, [(x["a"], x["user"], x["password"], x["ok"]) for x in steps[:k]], s["ok"], ok), rp)
             return
